@@ -82,6 +82,10 @@ func c07Compare(c *engine.Ctx, in []byte, args map[string]string) {
 				if i < len(want) {
 					w = want[i].tt.String()
 				}
+				if ref.quirk != "" && i >= ref.quirkTok {
+					c.Fail(ref.quirk, fmt.Sprintf("token %d: lexer: %s| CSS Syntax 3: %s", i, fmtCSSToks(got), fmtCSSToks(want)))
+					return
+				}
 				c.Fail("tokens:"+w+"-lexed-as-"+g, fmt.Sprintf("token %d: lexer: %s| CSS Syntax 3: %s", i, fmtCSSToks(got), fmtCSSToks(want)))
 				return
 			}
@@ -93,6 +97,10 @@ func c07Compare(c *engine.Ctx, in []byte, args map[string]string) {
 	// malformed input: the two clauses the property states, checked on the
 	// first malformed construct (everything before it must agree)
 	for i, w := range want {
+		if ref.quirk != "" && i >= ref.quirkTok && (i >= len(got) || got[i] != w) {
+			c.Fail(ref.quirk, fmt.Sprintf("token %d: lexer: %s| CSS Syntax 3: %s", i, fmtCSSToks(got), fmtCSSToks(want)))
+			return
+		}
 		if w.tt == css.BadStringToken {
 			if i >= len(got) || got[i].tt != css.BadStringToken || !strings.HasPrefix(got[i].data, w.data) {
 				c.Fail("bad-string", fmt.Sprintf("a raw newline in a string must give BadString: lexer: %s| expected token %d to be BadString(%q…)", fmtCSSToks(got), i, w.data))
@@ -291,7 +299,7 @@ func c07Finish(c *engine.Ctx, cov map[string]interface{}) string {
 func init() {
 	register(&engine.Check{
 		ID: "C07", Level: "model_checking",
-		Rule:        "vocabulary of ~170 token spellings (every token class of CSS Syntax 3 incl. escapes, custom properties, quoted/unquoted/bad urls in three cases, all number/percentage/dimension shapes, unicode ranges, match operators, CDO/CDC, delimiters, whitespace kinds, comments): every single, every ordered pair × separators {none, space, newline, /**/}, every triple over a 46-spelling core × separators; every byte string ≤k atoms over the CSS alphabets; edit balls around the CSS seeds; each lexed by css.Lexer and by a transcription of the CSS Syntax 3 (CR 2014) tokenizer; inputs the reference flags as ambiguous (NUL, invalid UTF-8, hex-escaped url(, number followed by --) are skipped, inputs with spec parse errors are compared up to the malformed construct and for the BadString/BadURL clauses. IsIdent/IsURLUnquoted compared with the library's own lexer on every enumerated byte string",
+		Rule:        "vocabulary of ~170 token spellings (every token class of CSS Syntax 3 incl. escapes, custom properties, quoted/unquoted/bad urls in three cases, all number/percentage/dimension shapes, unicode ranges, match operators, CDO/CDC, delimiters, whitespace kinds, comments): every single, every ordered pair × separators {none, space, newline, /**/}, every triple over a 46-spelling core × separators; every byte string ≤k atoms over the CSS alphabets; edit balls around the CSS seeds; each lexed by css.Lexer and by a transcription of the CSS Syntax 3 (CR 2014) tokenizer; inputs the reference flags as ambiguous (NUL, invalid UTF-8, hex-escaped url(, number followed by --) are skipped, the two unicode-range shapes on which the library's own tests pin a deviation are reported under their own clauses, inputs with spec parse errors are compared up to the malformed construct and for the BadString/BadURL clauses. IsIdent/IsURLUnquoted compared with the library's own lexer on every enumerated byte string",
 		Assumptions: []string{"reference = CSS Syntax Level 3 CR 2014 tokenizer + comments as tokens + --x as custom-property-name", "BadString: the library includes the newline in the token, the spec does not; only type and prefix are compared"},
 		Setup:       c07Setup, Work: c07Work, Finish: c07Finish,
 	})
